@@ -686,7 +686,7 @@ pub fn check(tier: &str, seed: u64, jobs: usize) -> i32 {
         tier,
         seed,
         "exploration",
-        "one evaluation = one procfs lookup (open, open_follow or readlink; through ProcfsHandle::new, try_from_fd on fsopen / recursive open_tree / plain open handles, or the global handle of the C API; bases root/self/thread-self) with a sub-path drawn from a menu of live procfs entries, magic-links, breakout shapes (self/root/..., self/cwd/..., fd/N/..., exe/.., '..') and decorations ('.', '..', '', trailing '/'), and a flag set from {O_PATH, access modes, O_DIRECTORY, O_NOFOLLOW, O_CREAT, O_EXCL, O_TMPFILE, ...}; each entry is classified (directory, file, in-procfs link, magic-link) by asking the harness's own pristine procfs; oracles: magic-link as a component fails with ELOOP/EXDEV; successful non-following results are procfs objects on the handle's mount; open/readlink never follow the trailing link; open_follow equals following that one link; creation flags give InvalidArgument; the same seeds run with the openat2 and the emulated procfs resolver and every lookup with a non-empty sub-path without '..' is compared; non-trivial and distinct = distinct (universe, operation, base, path, flags) with ids normalised",
+        "one evaluation = one procfs lookup (open, open_follow or readlink; through ProcfsHandle::new, try_from_fd on fsopen / recursive open_tree / plain open handles, or the global handle of the C API; bases root/self/thread-self) with a sub-path drawn from a menu of live procfs entries, magic-links, breakout shapes (self/root/..., self/cwd/..., fd/N/..., exe/.., '..') and decorations ('.', '..', '', trailing '/'), and a flag set from {O_PATH, access modes, O_DIRECTORY, O_NOFOLLOW, O_CREAT, O_EXCL, O_TMPFILE, ...}; each entry is classified (directory, file, in-procfs link, magic-link) by asking the harness's own pristine procfs; oracles: magic-link as a component fails with ELOOP/EXDEV; successful non-following results are procfs objects on the handle's mount; open/readlink never follow the trailing link; open_follow equals following that one link; creation flags give InvalidArgument (enumerated matrix incl. the raw __O_TMPFILE bit, nothing may be created); every entry of the live procfs is looked up (open / readlink / follow / as a directory component); racing-descriptor phase: fd/N does not exist when open_follow starts and appears at every window of the call - the result is never the magic-link itself; the same seeds run with the openat2 and the emulated procfs resolver and every lookup with a non-empty sub-path without '..' is compared; non-trivial and distinct = distinct (universe, operation, base, path, flags) with ids normalised",
         res,
         extra,
         vec!["quiescent: nothing is mounted or unmounted during these lookups (that is C06)".into()],
